@@ -1615,7 +1615,14 @@ func (c *DnsController) NormalizeAndCacheDnsResp_(msg *dnsmessage.Msg, responseC
 	// Get TTL.
 	var ttl uint32
 	if len(msg.Answer) > 0 {
+		// The whole answer section is cached and served as one entry: it lives as long as its
+		// shortest-lived record (a CNAME with TTL 3600 followed by an A with TTL 30 is good for 30 s).
 		ttl = msg.Answer[0].Header().Ttl
+		for _, rr := range msg.Answer[1:] {
+			if t := rr.Header().Ttl; t < ttl {
+				ttl = t
+			}
+		}
 	} else {
 		// NXDomain or empty answer
 		ttl = minFirefoxCacheTtl
